@@ -34,47 +34,53 @@ var idxRe = regexp.MustCompile(`\[\d+\]`)
 // The ONLY normalisation: a nil slice and an empty non-nil slice are the same (no consumer of stmt.Query
 // distinguishes them: every use is len()/range); *norm counts how often that was needed.
 func diff(path string, a, b reflect.Value, norm *int64) string {
+	return diffO(path, "", a, b, norm)
+}
+
+// diffO: owner = "StructType.Field" of the nearest enclosing struct field; it is appended to the message as
+// " @owner" so that the violation site can be coarse (top-level field + owner) instead of the full path.
+func diffO(path, owner string, a, b reflect.Value, norm *int64) string {
 	if a.IsValid() != b.IsValid() {
-		return fmt.Sprintf("%s: one side is nil (%v vs %v)", path, a.IsValid(), b.IsValid())
+		return fmt.Sprintf("%s: one side is nil (%v vs %v) @%s", path, a.IsValid(), b.IsValid(), owner)
 	}
 	if !a.IsValid() {
 		return ""
 	}
 	if a.Type() != b.Type() {
-		return fmt.Sprintf("%s: type %s vs %s", path, a.Type(), b.Type())
+		return fmt.Sprintf("%s: type %s vs %s @%s", path, a.Type(), b.Type(), owner)
 	}
 	switch a.Kind() {
 	case reflect.Interface, reflect.Ptr:
 		if a.IsNil() || b.IsNil() {
 			if a.IsNil() != b.IsNil() {
-				return fmt.Sprintf("%s: nil=%v vs nil=%v", path, a.IsNil(), b.IsNil())
+				return fmt.Sprintf("%s: nil=%v vs nil=%v @%s", path, a.IsNil(), b.IsNil(), owner)
 			}
 			return ""
 		}
-		return diff(path, a.Elem(), b.Elem(), norm)
+		return diffO(path, owner, a.Elem(), b.Elem(), norm)
 	case reflect.Struct:
 		for i := 0; i < a.NumField(); i++ {
-			if d := diff(path+"."+a.Type().Field(i).Name, a.Field(i), b.Field(i), norm); d != "" {
+			if d := diffO(path+"."+a.Type().Field(i).Name, a.Type().Name()+"."+a.Type().Field(i).Name, a.Field(i), b.Field(i), norm); d != "" {
 				return d
 			}
 		}
 		return ""
 	case reflect.Slice:
 		if a.Len() != b.Len() {
-			return fmt.Sprintf("%s: len %d vs %d", path, a.Len(), b.Len())
+			return fmt.Sprintf("%s: len %d vs %d @%s", path, a.Len(), b.Len(), owner)
 		}
 		if a.Len() == 0 && a.IsNil() != b.IsNil() {
 			*norm++
 		}
 		for i := 0; i < a.Len(); i++ {
-			if d := diff(fmt.Sprintf("%s[%d]", path, i), a.Index(i), b.Index(i), norm); d != "" {
+			if d := diffO(fmt.Sprintf("%s[%d]", path, i), owner, a.Index(i), b.Index(i), norm); d != "" {
 				return d
 			}
 		}
 		return ""
 	default:
 		if !reflect.DeepEqual(a.Interface(), b.Interface()) {
-			return fmt.Sprintf("%s: %v vs %v", path, a.Interface(), b.Interface())
+			return fmt.Sprintf("%s: %v vs %v @%s", path, a.Interface(), b.Interface(), owner)
 		}
 		return ""
 	}
@@ -88,12 +94,23 @@ func same(root string, a, b interface{}, norm *int64) string {
 	return diff(root, reflect.ValueOf(a), reflect.ValueOf(b), norm)
 }
 
+// siteOf: coarse, stable site = top-level field of the statement + the struct field that differs
+// (e.g. "Query.SelectItems @BinaryExpr.Left"); the full path stays in the detail.
 func siteOf(d string) string {
 	p := d
 	if i := strings.Index(p, ":"); i >= 0 {
 		p = p[:i]
 	}
-	return idxRe.ReplaceAllString(p, "[]")
+	p = idxRe.ReplaceAllString(p, "")
+	parts := strings.Split(p, ".")
+	if len(parts) > 2 {
+		parts = parts[:2]
+	}
+	owner := ""
+	if i := strings.LastIndex(d, " @"); i >= 0 {
+		owner = d[i:]
+	}
+	return strings.Join(parts, ".") + owner
 }
 
 // kinds collects the set of expression kinds of a tree and its depth (nesting of Expr inside Expr).
@@ -318,7 +335,7 @@ func (c *checker) runSQL(k *kase) {
 			if q1.AutoGroupByTime {
 				p.Interval = timeutil.Interval(p.TimeRange.End-p.TimeRange.Start) + o.si
 			}
-			c.queryWire(k, fmt.Sprintf("+planned%d", i), &p)
+			c.queryWire(k, "+planned", &p)
 		}
 	}
 	// (4) every expression of the statement through stmt.Marshal/Unmarshal on its own
